@@ -249,9 +249,31 @@ def t_floatValue(t):
     return t
 
 
+# Maximum length of an integer literal. The largest CIM integer type has 64
+# bits, i.e. 64 binary digits. Python refuses to convert integers with more
+# than 4300 decimal digits from or to a string.
+_MAX_INT_LITERAL_LENGTH = 80
+
+
+def _int_literal_too_long(t):
+    """
+    If the integer literal in token t is too long for any CIM integer type,
+    turn the token into an error token and return True.
+    """
+    if len(t.value) <= _MAX_INT_LITERAL_LENGTH:
+        return False
+    t.lexer.last_msg = _format(
+        "Integer literal is too long for any CIM integer type ({0} "
+        "characters)", len(t.value))
+    t.type = 'error'
+    # Setting error causes the value to be automatically skipped
+    return True
+
+
 def t_hexValue(t):
     r'[+-]?0[xX][0-9a-fA-F]+'
-    t.value = int(t.value, 16)
+    if not _int_literal_too_long(t):
+        t.value = int(t.value, 16)
     return t
 
 
@@ -260,7 +282,9 @@ def t_binaryValue(t):
     # We must match [0-9], and then check the validity of the binary number.
     # If we match [0-1], the invalid binary number "2b" would match
     # 'decimalValue' 2 and 'IDENTIFIER 'b'.
-    if re.search(r'[2-9]', t.value) is not None:
+    if _int_literal_too_long(t):
+        pass
+    elif re.search(r'[2-9]', t.value) is not None:
         msg = _format("Invalid binary number {0!A}", t.value)
         t.lexer.last_msg = msg
         t.type = 'error'
@@ -275,7 +299,9 @@ def t_octalValue(t):
     # We must match [0-9], and then check the validity of the octal number.
     # If we match [0-7], the invalid octal number "08" would match
     # 'decimalValue' 0 and 'decimalValue' 8.
-    if re.search(r'[8-9]', t.value) is not None:
+    if _int_literal_too_long(t):
+        pass
+    elif re.search(r'[8-9]', t.value) is not None:
         msg = _format("Invalid octal number {0!A}", t.value)
         t.lexer.last_msg = msg
         t.type = 'error'
@@ -289,7 +315,8 @@ def t_octalValue(t):
 # the 0. If not at the end, 0 would match at the begin of e.g. an octal value.
 def t_decimalValue(t):
     r'[+-]?([1-9][0-9]*|0)'
-    t.value = int(t.value)
+    if not _int_literal_too_long(t):
+        t.value = int(t.value)
     return t
 
 
